@@ -177,6 +177,7 @@ type Call struct {
 	K         int      `json:"k,omitempty"`    // partial: ids returned
 	Err       *ErrSpec `json:"err,omitempty"`
 	Cancelled bool     `json:"cancelled,omitempty"` // the caller's context is already cancelled
+	Real      bool     `json:"real,omitempty"`      // real-size stream: the client keeps its production default MaxBlobSize (Max is overwritten with it)
 	// retrieve
 	Height   uint64   `json:"height,omitempty"`
 	G        string   `json:"g,omitempty"` // backend GetIDs: nil | empty | ids | err
@@ -381,6 +382,8 @@ type rig struct {
 	server *proxy.Server
 	client *proxy.Client
 	logger logging.EventLogger
+	// the client's MaxBlobSize as NewClient sets it (production default, da/jsonrpc/internal.DefaultMaxBytes)
+	defaultMax uint64
 }
 
 func newRig() (*rig, error) {
@@ -399,6 +402,7 @@ func newRig() (*rig, error) {
 		return nil, err
 	}
 	r.client = cl
+	r.defaultMax = cl.DA.MaxBlobSize
 	return r, nil
 }
 
@@ -511,6 +515,9 @@ type caseOut struct {
 func (r *rig) run(c *Call) caseOut {
 	var out caseOut
 	var sent [][]byte
+	if c.Real {
+		c.Max = r.defaultMax // server and client exactly as production builds them
+	}
 	for i, s := range c.Sizes {
 		sent = append(sent, blobBytes(i, s))
 	}
@@ -673,6 +680,8 @@ func genErr(r *rand.Rand, submitPath bool) *ErrSpec {
 	return e
 }
 
+var defaultMaxForGen uint64 // set from the rig: the client's production default MaxBlobSize
+
 func genCall(r *rand.Rand) Call {
 	if r.Intn(100) < 55 {
 		c := Call{Kind: "submit"}
@@ -744,6 +753,18 @@ func genCall(r *rand.Rand) Call {
 			c.K = r.Intn(n + 1)
 		}
 		c.Cancelled = r.Intn(20) == 0
+		if r.Intn(40) == 0 && defaultMaxForGen > 0 { // real-size stream: production limits, total around the limit
+			D := int(defaultMaxForGen)
+			tot := []int{D / 2, D * 3 / 4, D * 9 / 10, D * 99 / 100, D - 1, D, D + 1, D * 5 / 4}[r.Intn(8)]
+			c.Real, c.Max, c.Cancelled = true, defaultMaxForGen, false
+			c.Sizes = split(tot, 1+r.Intn(6))
+			if c.Resp == "dummy" {
+				c.L = []uint64{c.Max, c.Max / 2, c.Max * 2}[r.Intn(3)]
+			}
+			if c.Resp == "partial" {
+				c.K = r.Intn(len(c.Sizes) + 1)
+			}
+		}
 		return c
 	}
 	c := Call{Kind: "retrieve", Height: uint64(1 + r.Intn(50))}
@@ -920,6 +941,42 @@ func shrink(rg *rig, c Call, sig string) Call {
 	return c
 }
 
+type job struct {
+	seed int64
+	c    int
+	call *Call
+}
+
+// split total into n near-equal parts
+func split(total, n int) []int {
+	out := make([]int, n)
+	for i := range out {
+		out[i] = total / n
+	}
+	out[n-1] += total % n
+	return out
+}
+
+// realSizeJobs: the real-size stream.  Server and client with their production limits (nothing overridden), single
+// blobs and batches whose total is at 50/75/90/99/100% and 100%+1 byte of the client's default limit, and many
+// medium blobs so that the client trims to a near-full prefix.  Only sizes go to Coq.
+func realSizeJobs(def uint64) []job {
+	var js []job
+	D := int(def)
+	add := func(c Call) { c.Kind = "submit"; c.Real = true; c.Max = def; cc := c; js = append(js, job{0, 0, &cc}) }
+	for _, t := range []int{D / 2, D * 3 / 4, D * 9 / 10, D * 99 / 100, D, D + 1} {
+		add(Call{Sizes: []int{t}, Resp: "ok"})
+		add(Call{Sizes: split(t, 4), Resp: "ok"})
+	}
+	m := D * 243 / 1000                                   // ~480 KB with the default limit
+	add(Call{Sizes: []int{m, m, m, m}, Resp: "ok"})       // 97% — fits
+	add(Call{Sizes: []int{m, m, m, m, m}, Resp: "ok"})    // trimmed to the first four
+	add(Call{Sizes: []int{m, m, m, m, D - 4*m, 1}, Resp: "ok"}) // first five fill the limit exactly
+	add(Call{Sizes: split(D*99/100, 3), Resp: "err", Err: &ErrSpec{Sent: []int{3}, Prefix: "failed to submit"}})
+	add(Call{Sizes: split(D*9/10, 2), Resp: "partial", K: 1})
+	return js
+}
+
 func caseRng(seed int64, c int) *rand.Rand { return rand.New(rand.NewSource(seed*1000003 + int64(c))) }
 
 func TestVerif(t *testing.T) {
@@ -933,12 +990,8 @@ func TestVerif(t *testing.T) {
 		t.Fatalf("rig: %v", err)
 	}
 	defer rg.close()
+	defaultMaxForGen = rg.defaultMax
 
-	type job struct {
-		seed int64
-		c    int
-		call *Call
-	}
 	var jobs []job
 	if e.Replay != "" {
 		var rp Replay
@@ -963,6 +1016,7 @@ func TestVerif(t *testing.T) {
 					jobs = append(jobs, job{0, 0, &Call{Kind: "retrieve", Height: 5, G: "err", GErr: &ErrSpec{Sent: []int{i}, Prefix: pre}}})
 				}
 			}
+			jobs = append(jobs, realSizeJobs(rg.defaultMax)...)
 			jobs = append(jobs, job{0, 0, &Call{Kind: "submit", Sizes: []int{3, 4}, Max: 100, Resp: "err", Err: &ErrSpec{Ctx: "canceled"}}})
 			jobs = append(jobs, job{0, 0, &Call{Kind: "submit", Sizes: []int{3, 4}, Max: 100, Resp: "ok", Cancelled: true}})
 			jobs = append(jobs, job{0, 0, &Call{Kind: "retrieve", Height: 5, G: "ids", NIDs: 3, Cancelled: true}})
@@ -986,6 +1040,9 @@ func TestVerif(t *testing.T) {
 		if call.Kind == "submit" {
 			res.Count("submit-backend:" + call.Resp)
 			res.Count(fmt.Sprintf("submit-blobs:%s", bucket(len(call.Sizes))))
+			if call.Real {
+				res.Count("submit:real-size-production-limits")
+			}
 			if uint64(sum(call.Sizes)) > call.Max {
 				res.Count("submit:batch-over-limit")
 			} else if uint64(sum(call.Sizes)) == call.Max {
@@ -1036,7 +1093,7 @@ func TestVerif(t *testing.T) {
 		}
 	}
 	res.Distinct = len(distinct)
-	res.Rule = "one case = one call pair (direct double vs the same double behind the real jsonrpc server+client on 127.0.0.1:0) through types.SubmitWithHelpers / types.RetrieveWithHelpers; submit: 0..20 blobs with sizes fitting / crossing / individually exceeding the client limit (1..1000), backend answers ok / real DummyDA with its own limit / scripted error / no ids / fewer ids; retrieve: nil / empty / 1..260 ids (1-3 Get batches, optional failing batch) / scripted error; scripted errors: each of the 8 core/da sentinels bare, wrapped, joined, context.Canceled, context.DeadlineExceeded, opaque, texts that merely mention a sentinel; 5% with the caller's context already cancelled; fixed part: every sentinel bare and wrapped on both paths; non-trivial = not the empty submit; distinct = distinct Coq call terms"
+	res.Rule = "one case = one call pair (direct double vs the same double behind the real jsonrpc server+client on 127.0.0.1:0) through types.SubmitWithHelpers / types.RetrieveWithHelpers; submit: 0..20 blobs with sizes fitting / crossing / individually exceeding the client limit (1..1000), plus a real-size stream (server and client with production limits, default max blob size, totals at 50/75/90/99/100% and 100%+1 byte, 4-6 medium blobs trimmed to a near-full prefix; 17 fixed + ~1.4% of generated calls), backend answers ok / real DummyDA with its own limit / scripted error / no ids / fewer ids; retrieve: nil / empty / 1..260 ids (1-3 Get batches, optional failing batch) / scripted error; scripted errors: each of the 8 core/da sentinels bare, wrapped, joined, context.Canceled, context.DeadlineExceeded, opaque, texts that merely mention a sentinel; 5% with the caller's context already cancelled; fixed part: every sentinel bare and wrapped on both paths; non-trivial = not the empty submit; distinct = distinct Coq call terms"
 	res.Cases = len(cases)
 	header := "From Coq Require Import String Ascii NArith List Bool.\nFrom Verif Require Import Model.Proxy Check.ProxyCheck."
 	defs := []string{tableCoq(),
